@@ -59,6 +59,10 @@ def oracle_lockfam(run):
                     return "handle is %s although the lock was %s" % ("non-null" if nn else "null", "obtained" if last_ok[tid] else "not obtained")
             elif not nn:
                 return "locking disabled but the acquisition returned a null handle"
+        elif k == "hfree":
+            if enabled and mode.get(tid):
+                return ("leaked lock: thread %d still holds the mutex (%s) although every handle that could own it has been "
+                        "destroyed, unlock()-ed, moved from or assigned over" % (tid, mode.get(tid)))
         elif k == "he" and len(t) > 1:
             if t[1] != "0":
                 return "handle still non-null after unlock()"
@@ -99,6 +103,10 @@ def _register_check(op, res, acc):
     name, _, arg = body.partition("=")
     reads = [v for k, v in acc if k == "prd"]
     writes = [v for k, v in acc if k == "pwr"]
+    if name == "rv":
+        name = "rd"
+    if name == "mv":
+        name = "md"
     if name in ("ld", "cv", "rd"):
         if not reads or writes or not res or int(res[0]) != reads[-1]:
             return "%s returned %s, read %s, wrote %s" % (op, res, reads, writes)
@@ -136,7 +144,16 @@ LF_TIE = (" The model is tied to the source on every run: the unmodified headers
 
 def register(PROPS, COMPONENTS):
     COMPONENTS["lockfam"] = dict(client="lockfam", driver="lockfam", directed_runs=2, quick_runs=1200, thorough_runs=40000,
-                                 oracle=oracle_lockfam)
+                                 oracle=oracle_lockfam,
+                                 cov_headers=["gmlc/libguarded/handles.hpp", "gmlc/libguarded/guarded.hpp",
+                                              "gmlc/libguarded/guarded_opt.hpp", "gmlc/libguarded/shared_guarded.hpp",
+                                              "gmlc/libguarded/shared_guarded_opt.hpp", "gmlc/libguarded/ordered_guarded.hpp",
+                                              "gmlc/libguarded/atomic_guarded.hpp"],
+                                 # members that cannot / need not be instantiated with the harness payload:
+                                 inst_allow=[r"::begin$", r"::end$",            # need an iterable T; pure forwarding to std::begin/end
+                                             r"^is_shared_lockable::test$",     # unevaluated SFINAE probes
+                                             r"^shared_locker::generate_lock$",  # never called by the library (dead code)
+                                             r"^guarded::operator ", r"^guarded_opt::operator "])  # do not compile (mutex not mutable)
     PROPS["C01"] = dict(
         lean_files=["ConcVerif/Props/C01.lean"], components=["lockfam"], stage="B",
         level_text="Lean 4 theorems (kernel-checked; unbounded threads, client programs and interleavings; both mutex families) over "
